@@ -77,6 +77,15 @@ pub fn enable_pure(cap_ms: i64, jitter_ns: i64, seed: u64, tick_ns: i64, op_cost
     PURE.store(true, SeqCst);
 }
 
+/// After this many virtual sleeps (counted from enable) one sleep oversleeps up to the absolute virtual time JUMP_TO:
+/// the machine was suspended, the thread was not scheduled for weeks - legitimate behaviour of an operating system.
+pub static JUMP_AFTER_SLEEPS: AtomicU64 = AtomicU64::new(0);
+pub static JUMP_TO: AtomicI64 = AtomicI64::new(0);
+/// pid of a controlled child that is known never to exit on its own: a wait without WNOHANG on it would never return.
+/// The interposer ends such a call (reserved errno) and counts it here.
+pub static NEVER_EXITS_PID: AtomicI32 = AtomicI32::new(0);
+pub static BLOCKING_WAITS_ON_NEVER_EXITING: AtomicU64 = AtomicU64::new(0);
+
 pub fn pure() -> bool {
     ENABLED.load(SeqCst) && PURE.load(SeqCst)
 }
@@ -107,6 +116,10 @@ pub fn enable(cap_ms: i64, jitter_ns: i64, seed: u64) {
     SLEPT_NS.store(0, SeqCst);
     TOTAL_JITTER_NS.store(0, SeqCst);
     BLOCKED_NS.store(0, SeqCst);
+    JUMP_AFTER_SLEEPS.store(0, SeqCst);
+    JUMP_TO.store(0, SeqCst);
+    NEVER_EXITS_PID.store(0, SeqCst);
+    BLOCKING_WAITS_ON_NEVER_EXITING.store(0, SeqCst);
     ENABLED.store(true, SeqCst);
 }
 
@@ -196,5 +209,13 @@ pub fn sleep_virtual(req_ns: i64) {
         }
     } else {
         advance(total);
+    }
+    let ja = JUMP_AFTER_SLEEPS.load(SeqCst);
+    if ja != 0 && SLEEPS.load(SeqCst) == ja {
+        let to = JUMP_TO.load(SeqCst);
+        let now = now_ns() as i64;
+        if to > now {
+            advance(to - now);
+        }
     }
 }
